@@ -1,0 +1,78 @@
+//go:build verif
+
+// Contracts for the verifier in /verif (comment-only file; compiled only with -tags verif).
+
+package quicvarint
+
+//@ spec extends(r, b) = (arr(r) == arr(b) && off(r) == off(b) && cap(r) == cap(b)) || fresh(r)
+//@ spec vlen(x) = ite(x <= 63, 1, ite(x <= 16383, 2, ite(x <= 1073741823, 4, 8)))
+
+//@ func Len
+//@   property C24
+//@   pure
+//@   panics when i > 4611686018427387903
+//@   ensures ret == vlen(i)
+
+//@ func Append
+//@   property C24
+//@   panics when i > 4611686018427387903
+//@   modifies b[len(b)..cap(b)]
+//@   ensures ext: extends(ret, b)
+//@   ensures len: len(ret) == len(b) + vlen(i)
+//@   ensures prefix: forall j in 0..len(b): ret[j] == old(b[j])
+//@   ensures tag: ret[len(b)] / 64 == ite(vlen(i) == 1, 0, ite(vlen(i) == 2, 1, ite(vlen(i) == 4, 2, 3)))
+//@   ensures v1: vlen(i) == 1 ==> ret[len(b)] == i
+//@   ensures v2: vlen(i) == 2 ==> (ret[len(b)] % 64) * 256 + ret[len(b)+1] == i
+//@   ensures v4: vlen(i) == 4 ==> (ret[len(b)] % 64) * 16777216 + ret[len(b)+1] * 65536 + ret[len(b)+2] * 256 + ret[len(b)+3] == i
+//@   ensures b8: vlen(i) == 8 ==> ret[len(b)] == 192 + i / 72057594037927936 && ret[len(b)+1] == (i / 281474976710656) % 256 && ret[len(b)+2] == (i / 1099511627776) % 256 && ret[len(b)+3] == (i / 4294967296) % 256 && ret[len(b)+4] == (i / 16777216) % 256 && ret[len(b)+5] == (i / 65536) % 256 && ret[len(b)+6] == (i / 256) % 256 && ret[len(b)+7] == i % 256
+
+//@ lemma varint8_value(x)
+//@   property C24
+//@   requires 0 <= x && x <= 4611686018427387903
+//@   ensures ((192 + x / 72057594037927936) % 64) * 72057594037927936 + ((x / 281474976710656) % 256) * 281474976710656 + ((x / 1099511627776) % 256) * 1099511627776 + ((x / 4294967296) % 256) * 4294967296 + ((x / 16777216) % 256) * 16777216 + ((x / 65536) % 256) * 65536 + ((x / 256) % 256) * 256 + x % 256 == x
+
+//@ func Read
+//@   property C24
+//@   let p = ghost(rdpos, r)
+//@   let id = val(r)
+//@   let b0 = rdbyte(id, p)
+//@   requires r != nil
+//@   modifies ghost(rdpos, r)
+//@   ensures w1: ret1 == nil && b0 / 64 == 0 ==> ghost(rdpos, r) == p + 1 && ret0 == b0 % 64
+//@   ensures w2: ret1 == nil && b0 / 64 == 1 ==> ghost(rdpos, r) == p + 2 && ret0 == (b0 % 64) * 256 + rdbyte(id, p+1)
+//@   ensures w4: ret1 == nil && b0 / 64 == 2 ==> ghost(rdpos, r) == p + 4 && ret0 == (b0 % 64) * 16777216 + rdbyte(id, p+1) * 65536 + rdbyte(id, p+2) * 256 + rdbyte(id, p+3)
+//@   ensures w8: ret1 == nil && b0 / 64 == 3 ==> ghost(rdpos, r) == p + 8 && ret0 == (b0 % 64) * 72057594037927936 + rdbyte(id, p+1) * 281474976710656 + rdbyte(id, p+2) * 1099511627776 + rdbyte(id, p+3) * 4294967296 + rdbyte(id, p+4) * 16777216 + rdbyte(id, p+5) * 65536 + rdbyte(id, p+6) * 256 + rdbyte(id, p+7)
+//@   ensures err: ret1 != nil ==> ret0 == 0
+
+//@ spec tagbits(w) = ite(w == 1, 0, ite(w == 2, 1, ite(w == 4, 2, 3)))
+
+//@ func AppendWithLen
+//@   property C24
+//@   let b0 = b
+//@   let l = vlen(i)
+//@   panics when (length != 1 && length != 2 && length != 4 && length != 8) || i > 4611686018427387903 || vlen(i) > length
+//@   modifies b[len(b)..cap(b)]
+//@   ensures ext: extends(ret, b0)
+//@   ensures len: len(ret) == len(b0) + length
+//@   ensures prefix: forall j in 0..len(b0): ret[j] == old(b0[j])
+//@   ensures tag: ret[len(b0)] / 64 == tagbits(length)
+//@   ensures pad: l < length ==> ret[len(b0)] % 64 == 0 && forall j in 1..length-l: ret[len(b0)+j] == 0
+//@   note the value bytes written by the second loop are not specified (variable shift under a quantifier is out of the solvers' reach); AppendWithLen has no caller in utls
+//@   loop 0 invariant 1 <= j && (j <= length - l || length - l < 1)
+//@   loop 0 invariant len(b) == len(b0) + j && extends(b, b0)
+//@   loop 0 invariant forall k in 0..len(b0): b[k] == old(b0[k])
+//@   loop 0 invariant b[len(b0)] == tagbits(length) * 64
+//@   loop 0 invariant forall k in 1..j: b[len(b0)+k] == 0
+//@   loop 1 invariant 0 <= j && j <= l
+//@   loop 1 invariant len(b) == len(b0) + length - l + j && extends(b, b0)
+//@   loop 1 invariant forall k in 0..len(b0): b[k] == old(b0[k])
+//@   loop 1 invariant b[len(b0)] == tagbits(length) * 64
+//@   loop 1 invariant forall k in 1..length-l: b[len(b0)+k] == 0
+
+//@ lemma varint_tags(x)
+//@   property C24
+//@   requires 0 <= x && x <= 4611686018427387903
+//@   ensures t8: (192 + x / 72057594037927936) / 64 == 3
+//@   ensures t4: x <= 1073741823 ==> (128 + x / 16777216) / 64 == 2 && ((128 + x / 16777216) % 64) * 16777216 + ((x / 65536) % 256) * 65536 + ((x / 256) % 256) * 256 + x % 256 == x
+//@   ensures t2: x <= 16383 ==> (64 + x / 256) / 64 == 1 && ((64 + x / 256) % 64) * 256 + x % 256 == x
+//@   ensures t1: x <= 63 ==> x / 64 == 0 && x % 64 == x
